@@ -48,7 +48,7 @@ func listUploads(s *drv.Server, bucket, prefix, delim string, extra ...string) (
 
 func runC14(c *Ctx) {
 	r := c.R
-	r.SetRule("random multipart histories (initiate/upload-part/overwrite-part/abort/complete, one history in five with an initiate request that names no key) over keys {a/k1,a/k2,a/b/c,ab/x,b,b/y} with 1-3 uploads per key and part numbers with gaps; then ListMultipartUploads for every prefix in a list x delimiter {none,'/'} unpaginated and walked with the server's NextKeyMarker/NextUploadIdMarker for every max-uploads 1..n+1, and ListParts of every pending upload unpaginated, walked with NextPartNumberMarker for every max-parts 1..n+1, and started at arbitrary numeric part-number markers incl. beyond the highest part; mem and fs-mm; distinct = (backend, history, listing kind, prefix, delimiter, page size or marker)")
+	r.SetRule("random multipart histories (initiate/upload-part/overwrite-part/abort/complete, one history in five with an initiate request that names no key) over keys {a/k1,a/k2,a/b/c,ab/x,b,b/y} with 1-3 uploads per key and part numbers with gaps; then ListMultipartUploads for every prefix in a list x delimiter {none,'/'} unpaginated and walked with the server's NextKeyMarker/NextUploadIdMarker for every max-uploads 1..n+1, and ListParts of every pending upload unpaginated, walked with NextPartNumberMarker for every max-parts 1..n+1, and started at arbitrary numeric part-number markers incl. beyond the highest part; on every second history a walk with max-uploads=1 during which the upload named by the server's markers is aborted before the next page is requested (uploads pending throughout must be visited exactly once, the walk must end); mem and fs-mm; distinct = (backend, history, listing kind, prefix, delimiter, page size or marker)")
 	nh := r.Pick(400, 30000)
 	kinds := []string{drv.Mem, drv.FsMM}
 	r.Set("backends", kinds)
@@ -454,6 +454,65 @@ func c14History(r *rep.Reporter, s *drv.Server, kind, bucket string, hi int, key
 		for _, mk := range markers {
 			for _, m := range []int{0, 1, 2} {
 				check("marker", m, mk, true)
+			}
+		}
+	}
+	// ---- a walk during which the upload named by the markers disappears ----
+	// The upload the server pointed at with NextKeyMarker/NextUploadIdMarker is aborted before the
+	// next page is asked for. Every upload that is pending throughout must still be visited
+	// exactly once and the walk must end.
+	if !failed && len(pending) >= 3 && hi%2 == 0 {
+		r.Eval(1)
+		visited := map[string]int{}
+		aborted := map[string]bool{}
+		keyM, idM := "", ""
+		var pages []string
+		ended := false
+		for pi := 0; pi <= len(pending)+3; pi++ {
+			extra := []string{"max-uploads", "1"}
+			if keyM != "" || idM != "" {
+				extra = append(extra, "key-marker", keyM, "upload-id-marker", idM)
+			}
+			ur, resp := listUploads(s, bucket, "", "", extra...)
+			if ur == nil {
+				fail("page-error", "marker-upload-aborted", fmt.Sprintf("page %d (key-marker=%q upload-id-marker=%q): %s", pi, keyM, idM, resp), pages)
+				return
+			}
+			var line []string
+			for _, u := range ur.Uploads {
+				visited[u.UploadID]++
+				line = append(line, u.Key+"#"+u.UploadID)
+			}
+			pages = append(pages, fmt.Sprintf("%v truncated=%v next=(%q,%q)", line, ur.IsTruncated, ur.NextKeyMarker, ur.NextUploadIDMarker))
+			if !ur.IsTruncated {
+				ended = true
+				break
+			}
+			keyM, idM = ur.NextKeyMarker, ur.NextUploadIDMarker
+			// abort the upload the markers name (only once per key so that other uploads of the key remain)
+			if len(aborted) < 2 && idM != "" && visited[idM] == 0 {
+				if ar := mpAbort(s, bucket, keyM, idM); ar.Status == 204 {
+					aborted[idM] = true
+					r.Count("marker_uploads_aborted_between_pages", 1)
+				}
+			}
+		}
+		r.Distinct(fmt.Sprintf("%s|%d|marker-upload-aborted", kind, hi))
+		if !ended {
+			fail("no-termination", "marker-upload-aborted", fmt.Sprintf("ListMultipartUploads max-uploads=1 with the marker upload aborted between pages does not end: %v", pages), pages)
+			return
+		}
+		for _, u := range pending {
+			if aborted[u.ID] {
+				continue
+			}
+			if visited[u.ID] != 1 {
+				anom := "upload-skipped"
+				if visited[u.ID] > 1 {
+					anom = "upload-repeated"
+				}
+				fail(anom, "marker-upload-aborted", fmt.Sprintf("upload %s#%d was pending during the whole walk and was visited %d times (the upload named by the markers was aborted between two pages): %v", u.Key, idIndex[u.ID], visited[u.ID], pages), pages)
+				return
 			}
 		}
 	}
